@@ -428,7 +428,7 @@ def program(rng, imports=(), vtype=None, n_stmts=None, crlf=None, uni=0.35):
     exports `v` (type code vtype) so that importers can depend on it."""
     g = ProgGen(rng, uni)
     stmts = []
-    g.used.update(["v"] + ["l%d" % k for k in range(1, 10)] + ["z%d" % k for k in range(1, 10)])
+    g.used.update(["v"] + ["l%d" % k for k in range(1, 10)] + ["z%d" % k for k in range(1, 10)] + ["y%d" % k for k in range(1, 10)])
     if vtype is None:
         vtype = rng.randrange(5)
     n = rng.randrange(1, 9) if n_stmts is None else n_stmts
@@ -445,6 +445,10 @@ def program(rng, imports=(), vtype=None, n_stmts=None, crlf=None, uni=0.35):
             stmts.append("let z%d = l%d.v == 1;" % (k, k))
         else:
             stmts.append("let z%d = l%d.v;" % (k, k))
+            if rng.random() < 0.5:
+                # a field of the alias of an imported value (it is a tuple for one export type in five): requests on
+                # it are answered from the imported document's analysis
+                stmts.append("let y%d = z%d.a;" % (k, k))
     for _ in range(n - pre):
         stmts.append(g.statement())
     if crlf is None:
